@@ -1,5 +1,5 @@
 CONSTANTS
-  MaxEdits = 2
+  MaxEdits = 5
   MODE = "partnered"
   NewNames <- NewNames3Def
   UnitNames <- UnitNamesDef
@@ -10,9 +10,7 @@ CONSTANTS
   REROOT = TRUE
   TSV_UC_PROPS = FALSE
 SPECIFICATION Spec
-VIEW View
 INVARIANT RoundTrip
 INVARIANT FormatsAgree
 INVARIANT MultiMergeRefuses
 INVARIANT EmitCase
-INVARIANT EmitBase
